@@ -326,6 +326,52 @@ def frontends(run, rng, n):
     return items
 
 
+def failing_blocks(run, rng, n):
+    """Every way a with-block can fail - an Exception, an interrupt, interpreter exit, a closed generator, a
+    framework's own BaseException - cancels the writer and frees the lock: the next writer gets it at once and
+    its commit is the next generation."""
+    from whoosh.index import LockError
+    items = []
+    for i in range(n):
+        cfg = {"storage": ["file", "ram"][i % 2], "compound": True, "scenario": "failing with-blocks"}
+        seed = rng.randrange(1 << 30)
+        w = ixdriver.IxWorld(storage=cfg["storage"])
+        try:
+            for j, exc in enumerate(dict.fromkeys(ixcommon.BLOCK_EXITS)):
+                name, wr = w.writer()
+                w.api(name, "delete", "f%d" % j)
+                w.api(name, "add", "f%d" % j)
+                w.actor(name)
+                wr.update_document(key=u"f%d" % j, body=u"never committed")
+                try:
+                    with wr:
+                        raise exc("boom inside with-block")
+                except exc:
+                    pass
+                # (no waiting: the lock must be free now)
+                w.nw += 1
+                name = "w%d" % w.nw
+                w.writers.append(name)
+                w.actor(name)
+                ok, wr2 = w.guarded(name, "writer", lambda: w.ix.writer(timeout=0.0))
+                if ok:
+                    w.api(name, "delete", "g%d" % j)
+                    w.api(name, "add", "g%d" % j)
+                    w.actor(name)
+                    wr2.update_document(key=u"g%d" % j, body=u"committed")
+                    wr2.commit()
+            rn = w.new_reader_name()
+            ok, s = w.guarded(rn, "searcher", w.ix.searcher)
+            if ok:
+                w.probe(rn, s)
+            t = w.trace()
+            run.count(len(t))
+            items.append({"trace": t, "writers": w.writers, "readers": w.readers, "cfg": cfg, "seed": seed})
+        finally:
+            w.close()
+    return items
+
+
 def check(run):
     quick = run.tier == "quick"
     rng = random.Random(run.seed + 404)
@@ -342,6 +388,7 @@ def check(run):
     items += racing_processes(run, rng, 4 if quick else 40)
     items += frontends(run, rng, 3 if quick else 20)
     items += fork_while_locked(run, rng, 1 if quick else 4)
+    items += failing_blocks(run, rng, 2 if quick else 6)
     rejects = ixcommon.validate(run, items)
     ixcommon.report(run, "c04", items, rejects)
     for it in items:
